@@ -181,7 +181,7 @@ func (k *KVStore) NewEntry() storage.Entry {
 
 // PutRaw sets the raw value for the given key.
 func (k *KVStore) PutRaw(hkey uint64, value []byte) error {
-	if uint64(len(value)) > k.tableSize {
+	if uint64(len(value)) >= k.tableSize {
 		return storage.ErrEntryTooLarge
 	}
 
@@ -215,7 +215,7 @@ func (k *KVStore) PutRaw(hkey uint64, value []byte) error {
 
 // Put sets the value for the given key. It overwrites any previous value for that key
 func (k *KVStore) Put(hkey uint64, value storage.Entry) error {
-	if requiredSizeForAnEntry(value) > k.tableSize {
+	if requiredSizeForAnEntry(value) >= k.tableSize {
 		return storage.ErrEntryTooLarge
 	}
 
